@@ -98,6 +98,9 @@ impl<T: Clone + TTOverwriteable> TranspositionTable<T> {
     }
 
     pub fn insert(&mut self, key: &ZobristHash, data: T) {
+        #[cfg(jgilchrist_tcheran_verif)]
+        crate::engine::util::verif::count_table_insert();
+
         let idx = self.get_entry_idx(key);
 
         // !: We know the exact size of the table and will always access within the bounds.
